@@ -1,3 +1,97 @@
+/-
+Helper lemmas for C08 (Gorilla codec round trip), part 1: bit IO and byte packing.
+Core Lean only.
+-/
 import SigModel.Model.Gorilla
+
 namespace SigModel.Lemmas.C08
+open SigModel SigModel.Gorilla
+
+/-! ### writeBits / readBits -/
+
+theorem writeBits_length (u n : Nat) : (writeBits u n).length = n := by
+  induction n with
+  | zero => rfl
+  | succ n ih => simp [writeBits, ih]
+
+theorem readBitsAux_writeBits (u : Nat) (n : Nat) : ∀ (acc : Nat) (r : Bits),
+    readBitsAux n acc (writeBits u n ++ r) = some (acc * 2 ^ n + u % 2 ^ n, r) := by
+  induction n with
+  | zero => intro acc r; simp [writeBits, readBitsAux, Nat.mod_one]
+  | succ n ih =>
+    intro acc r
+    simp only [writeBits, List.cons_append, readBitsAux]
+    rw [ih, Nat.toNat_testBit, @Nat.mod_pow_succ u 2 n, Nat.pow_succ]
+    congr 2
+    generalize 2 ^ n = p
+    generalize u / p % 2 = q
+    generalize u % p = m
+    rw [Nat.add_mul, Nat.mul_comm p q, Nat.mul_comm 2 acc, Nat.mul_assoc, Nat.mul_comm 2 p]
+    omega
+
+theorem readBits_writeBits (u n : Nat) (r : Bits) :
+    readBits n (writeBits u n ++ r) = some (u % 2 ^ n, r) := by
+  simp [readBits, readBitsAux_writeBits]
+
+/-- reading back a value that fits. -/
+theorem readBits_writeBits_lt (u n : Nat) (r : Bits) (h : u < 2 ^ n) :
+    readBits n (writeBits u n ++ r) = some (u, r) := by
+  rw [readBits_writeBits, Nat.mod_eq_of_lt h]
+
+/-! ### pack / unpack -/
+
+theorem writeBits_byteOfBits8 : ∀ b0 b1 b2 b3 b4 b5 b6 b7 : Bool,
+    writeBits (byteOfBits [b0, b1, b2, b3, b4, b5, b6, b7]) 8 = [b0, b1, b2, b3, b4, b5, b6, b7] := by
+  decide
+
+/-- `byteOfBits` only looks at the first eight positions (zero padded). -/
+theorem byteOfBits_pad (bs : Bits) :
+    byteOfBits bs = byteOfBits [bs.getD 0 false, bs.getD 1 false, bs.getD 2 false, bs.getD 3 false,
+      bs.getD 4 false, bs.getD 5 false, bs.getD 6 false, bs.getD 7 false] := by
+  rfl
+
+theorem writeBits_byteOfBits (bs : Bits) :
+    writeBits (byteOfBits bs) 8 = bs.take 8 ++ List.replicate (8 - (bs.take 8).length) false := by
+  rw [byteOfBits_pad, writeBits_byteOfBits8]
+  rcases bs with _ | ⟨b0, _ | ⟨b1, _ | ⟨b2, _ | ⟨b3, _ | ⟨b4, _ | ⟨b5, _ | ⟨b6, _ | ⟨b7, bs⟩⟩⟩⟩⟩⟩⟩⟩ <;>
+    simp [List.replicate]
+
+theorem unpack_cons (x : Nat) (xs : List Nat) : unpack (x :: xs) = writeBits x 8 ++ unpack xs := by
+  simp [unpack]
+
+theorem unpack_pack_aux (n : Nat) : ∀ bs : Bits, bs.length ≤ n →
+    ∃ k, k < 8 ∧ unpack (pack bs) = bs ++ List.replicate k false := by
+  induction n with
+  | zero =>
+    intro bs h
+    have : bs = [] := List.length_eq_zero_iff.mp (by omega)
+    subst this
+    exact ⟨0, by omega, by simp [pack, unpack]⟩
+  | succ n ih =>
+    intro bs h
+    cases bs with
+    | nil => exact ⟨0, by omega, by simp [pack, unpack]⟩
+    | cons b bs =>
+      rw [pack.eq_2, unpack_cons, writeBits_byteOfBits]
+      by_cases hl : (b :: bs).length ≤ 8
+      · have hd : List.drop 8 (b :: bs) = [] := List.drop_eq_nil_iff.mpr hl
+        have ht : List.take 8 (b :: bs) = b :: bs := List.take_of_length_le hl
+        rw [hd, ht]
+        refine ⟨8 - (b :: bs).length, ?_, ?_⟩
+        · simp only [List.length_cons]; omega
+        · simp [pack, unpack]
+      · have hlen : (List.drop 8 (b :: bs)).length ≤ n := by
+          simp only [List.length_drop, List.length_cons] at h ⊢; omega
+        obtain ⟨k, hk, ihk⟩ := ih _ hlen
+        have htl : (List.take 8 (b :: bs)).length = 8 := by
+          rw [List.length_take]; omega
+        refine ⟨k, hk, ?_⟩
+        rw [ihk, htl]
+        simp only [Nat.sub_self, List.replicate_zero, List.append_nil]
+        rw [← List.append_assoc, List.take_append_drop]
+
+theorem unpack_pack (bs : Bits) :
+    ∃ k, k < 8 ∧ unpack (pack bs) = bs ++ List.replicate k false :=
+  unpack_pack_aux bs.length bs (Nat.le_refl _)
+
 end SigModel.Lemmas.C08
